@@ -106,6 +106,19 @@ fn beyond_limit(h: &rosu_map::section::hit_objects::HitObject) -> bool {
     }
 }
 
+/// `[HitObjects] rejects its own encoder's line "x,y,t,TYPE,snd,END..."`: a spinner / hold line whose end field lies
+/// beyond 2^31-1 by rounding only (the decoded end was within the limit)
+fn end_rounds_beyond_limit(problem: &str) -> bool {
+    let Some(line) = problem.split('"').nth(1) else { return false };
+    let f: Vec<&str> = line.split(',').collect();
+    if f.len() < 6 {
+        return false;
+    }
+    let ty = f[3].trim().parse::<i32>().unwrap_or(0);
+    let end = f[5].split(':').next().and_then(|x| x.trim().parse::<f64>().ok()).unwrap_or(0.0);
+    (ty & 8 != 0 || ty & 128 != 0) && end > 2_147_483_647.0 && end < 2_147_483_647.01
+}
+
 /// classify a C02 difference for known-finding matching
 fn c02_sig(diff: &str, m1: &Beatmap) -> String {
     if let Some(rest) = diff.strip_prefix("hit_objects[") {
@@ -144,7 +157,15 @@ pub fn encoder_relations(args: &Args, s: &mut Summary) {
     let prop = args.opt("prop").unwrap_or("C02").to_string();
     let thorough = args.opt("tier") == Some("thorough");
     let mut rng = Rng::new(args.seed);
-    let files = corpus_with(&mut rng, if thorough { 1500 } else { 250 }, prop == "C04", true);
+    let mut files = corpus_with(&mut rng, if thorough { 1500 } else { 250 }, prop == "C04", true);
+    if prop == "C04" {
+        // known shape: a spinner / hold that ends exactly at the largest accepted time and starts at a negative fraction:
+        // the encoder writes start + (end - start), which rounds to 2147483647.0000002
+        for (i, (mode, line)) in [(0, "256,192,-1.3,12,0,2147483647"), (3, "256,192,-1.3,128,0,2147483647:0:0:0:0:"), (0, "256,192,-0.7,12,0,2147483647")].iter().enumerate() {
+            files.push((format!("fixed-end-at-limit-{i}"),
+                        format!("osu file format v14\n\n[General]\nMode: {mode}\n\n[TimingPoints]\n0,500,4,1,0,100,1,0\n\n[HitObjects]\n100,100,-5,1,0,0:0:0:0:\n{line}\n"), false));
+        }
+    }
     for (name, text, _) in &files {
         let r = guarded(&format!("{prop} {name}"), || roundtrip(text));
         s.checks += 1;
@@ -174,11 +195,15 @@ pub fn encoder_relations(args: &Args, s: &mut Summary) {
                 let mut sigs: Vec<&str> = vec![];
                 let mut unexplained: Vec<&String> = vec![];
                 let mut lost_by_length = 0usize;
+                let mut lost_by_rounding = 0usize;
                 for p in &probs {
                     if p.starts_with("[HitObjects] rejects") && n_beyond > 0
                         && p.split(',').nth(7).and_then(|x| x.trim().parse::<f64>().ok()).map_or(false, |l| l > 131_072.0) {
                         lost_by_length += 1;
                         sigs.push("rejects-own-output:natural-length-beyond-limit");
+                    } else if p.starts_with("[HitObjects] rejects") && end_rounds_beyond_limit(p) {
+                        lost_by_rounding += 1;
+                        sigs.push("rejects-own-output:end-time-rounds-beyond-limit");
                     } else if p.starts_with("[TimingPoints] rejects")
                         && p.split('"').nth(1).and_then(|l| l.split(',').next()).and_then(|x| x.trim().parse::<f64>().ok()).map_or(false, |t| t > 2_147_483_647.0) {
                         sigs.push("rejects-own-output:time-beyond-limit");
@@ -188,7 +213,12 @@ pub fn encoder_relations(args: &Args, s: &mut Summary) {
                         unexplained.push(p);
                     }
                 }
-                if m2.hit_objects.len() + lost_by_length != m1.hit_objects.len() || lost_by_length > n_beyond {
+                let n_at_limit = m1.hit_objects.iter().filter(|h| match &h.kind {
+                    HitObjectKind::Spinner(sp) => h.start_time + sp.duration > 2_147_483_647.0 && h.start_time + sp.duration < 2_147_483_647.01,
+                    HitObjectKind::Hold(ho) => h.start_time + ho.duration > 2_147_483_647.0 && h.start_time + ho.duration < 2_147_483_647.01,
+                    _ => false,
+                }).count();
+                if m2.hit_objects.len() + lost_by_length + lost_by_rounding != m1.hit_objects.len() || lost_by_length > n_beyond || lost_by_rounding > n_at_limit {
                     if let Some(p) = probs.iter().find(|p| p.starts_with("hit objects ")) {
                         unexplained.push(p);
                     }
